@@ -2,6 +2,8 @@
 From Coq Require Import List Arith ZArith Bool.
 Import ListNotations.
 From PF Require Import Arr Net SweepDown SweepUp Rank Stream StreamSpec StrahlerBound.
+From PF Require Import GenLoopsEq.
+From PFG Require Import GenLoops.
 Local Open Scope Z_scope.
 
 (* the three-way update of streams.strahler_order folded over the tributary orders -- any number
@@ -67,3 +69,8 @@ Proof. vm_compute. auto. Qed.
 Example strahler_example :
   topo [0;0;0;1;1;2]%nat [0;1;2;3;4;5]%nat /\ strahler_order [0;0;0;1;1;2]%nat [0;1;2;3;4;5]%nat None = [2;2;1;1;1;1].
 Proof. split; [apply check_topo_sound; vm_compute; reflexivity|vm_compute; reflexivity]. Qed.
+
+(* TIE BY TRANSLATION: core.main_upstream regenerated from the source on every run IS the model above *)
+Theorem gen_main_upstream_eq : forall ds uparea upa_min, gen_main_upstream ds uparea upa_min = main_upstream ds uparea upa_min.
+Proof. exact GenLoopsEq.gen_main_upstream_eq. Qed.
+Print Assumptions gen_main_upstream_eq.
